@@ -173,7 +173,12 @@ func (b *Bed) Probe(r Req) (Event, error) {
 	}
 
 	cr := client.Request{Method: r.Method, Host: r.Host, Path: path}
-	if r.Scheme == "https" {
+
+	switch {
+	case b.App.Mode == app.Envoy:
+		cr.Scheme = r.Scheme // the scheme attribute of the check request, possibly not populated at all
+		cr.EnvoyNoScheme = r.Scheme == ""
+	case r.Scheme == "https":
 		cr.Headers = append(cr.Headers, [2]string{"X-Forwarded-Proto", "https"})
 	}
 
